@@ -31,14 +31,19 @@ import IceModel.Lemmas.FormatTotalBacking
                         one succeeds (which is everywhere C04_postings / C04_dv speak about).
 
   3. THE SEGMENT `New` RETURNS (no file).
-       initSegment      (Lemmas/FormatTotalNew.lean) `New` from `convert` on, `initSegmentBase`
-       C04_new_eq_load  the segment `New` returns and the segment loaded from the persisted file
-                        are equal up to ONE observable: the checksum slot of the footer
-                        (`Segment.CRC()`): `New` stores the CRC-32 of the data section, a loaded
-                        segment the CRC-32 of the file without its last four bytes.  All readers
-                        (`dictionaryOf`, `readPostings`, `store`, stored fields, doc values)
-                        are literally the same functions of the same values.
-       C04_new_crc_counterexample   full equality is false (the example segment)
+       initSegment      (Lemmas/FormatTotalNew.lean) `New` from `convert` on, `initSegmentBase`,
+                        code after commit 6ad80a3 (`footer.crc = footerCRC(footer)`);
+                        `initSegmentV0` the code before it
+       C04_new_eq_load  the segment `New` returns and the segment loaded (memory-backed) from the
+                        persisted file are EQUAL (`ld = nw`), `Segment.CRC()` included
+       C04_new          the same with totality
+       C04_new_v0_eq_load   before the fix: equal up to ONE observable, the checksum slot of the
+                        footer (`New` stored the CRC-32 of the data section, a loaded segment
+                        holds the CRC-32 of the file without its last four bytes); all readers
+                        were the same functions of the same values
+       C04_new_eq_v0    the repaired segment is the pre-fix one with the checksum slot corrected
+       C04_new_crc_v0_counterexample   pre-fix: full equality was false (the example segment);
+                        `C04_new_crc_counterexample` is an alias (registered name)
 -/
 namespace Ice.Props.C04
 open Ice Ice.Model Ice.Model.Format
@@ -230,10 +235,13 @@ theorem total_needs_dv_range :
     DocValues.buildField, DocValues.Coder.new, DocValues.addAll, DocValues.Coder.add,
     DocValues.Coder.flush, DocValues.Coder.write, DocValues.encVals, DocValues.docBytes, dvChunk, two64]
 
-/-! ## 3. the segment `New` returns -/
+/-! ## 3. the segment `New` returns
 
-/-- the segment `initSegmentBase` builds -/
-def newSeg (K : Codecs) (L : LSeg) (data : Bytes) (ft : Footer) (dictLocs : List Nat)
+  `initSegment` is the code after commit 6ad80a3 (`footer.crc = footerCRC(footer)`),
+  `initSegmentV0` the code before it (`footer.crc = s.w.Sum32()` only). -/
+
+/-- the segment `initSegmentBase` built BEFORE commit 6ad80a3 (checksum of the data section) -/
+def newSegV0 (K : Codecs) (L : LSeg) (data : Bytes) (ft : Footer) (dictLocs : List Nat)
     (rs : List (Option DocValues.Reader)) : Loaded :=
   { data := { bytes := data, mem := true }, footer := { ft with crc := K.crc.upd 0 data },
     fieldsInv := L.fields.map (·.name), dictLocs := dictLocs,
@@ -243,28 +251,36 @@ def newSeg (K : Codecs) (L : LSeg) (data : Bytes) (ft : Footer) (dictLocs : List
 /-- replace the checksum slot of the footer -/
 def _root_.Ice.Model.Format.Loaded.withCrc (ld : Loaded) (c : Nat) : Loaded := { ld with footer := { ld.footer with crc := c } }
 
-theorem newSeg_withCrc (K : Codecs) (L : LSeg) (data : Bytes) (ft : Footer) (dictLocs : List Nat)
+theorem newSegV0_withCrc (K : Codecs) (L : LSeg) (data : Bytes) (ft : Footer) (dictLocs : List Nat)
     (rs : List (Option DocValues.Reader)) :
-    (newSeg K L data ft dictLocs rs).withCrc (K.crc.upd 0 (data ++ footerFields ft)) =
+    (newSegV0 K L data ft dictLocs rs).withCrc (K.crc.upd 0 (data ++ footerFields ft)) =
       loadedSeg K L data ft true dictLocs rs := rfl
 
-/-- `New` and persist + `load`, side by side: the same tables, the same doc-value readers -/
+/-- `New` (repaired and pre-fix) and persist + `load`, side by side: the same tables, the same
+    doc-value readers; the repaired `New` builds literally the value `load` builds -/
 theorem new_and_load {K : Codecs} {L : LSeg} (hv : Valid K L) {data : Bytes} {ft : Footer}
     (hs : serialize K L = .ok (data, ft)) :
     ∃ mid dictLocs rs, Written K L data ft mid dictLocs ∧
       convert K L = .ok (data, ft, dictLocs, (storedOut K L).chunkOffsets) ∧
-      initSegment K L = .ok (newSeg K L data ft dictLocs rs) ∧
+      initSegmentV0 K L = .ok (newSegV0 K L data ft dictLocs rs) ∧
+      initSegment K L = .ok (loadedSeg K L data ft true dictLocs rs) ∧
       load true (fileOf K data ft) = .ok (loadedSeg K L data ft true dictLocs rs) := by
   obtain ⟨dl, offs, hc⟩ := convert_of_serialize hs
   obtain ⟨rfl, mid, h1, h2, h3⟩ := convert_inv K L data ft dl offs hv.numDocs_lt hc
   have hw : Written K L data ft mid dl := ⟨h1, h2, h3, hv.size_lt hs⟩
   obtain ⟨rs, hrs, -⟩ := loadDv_written hv hw true (K.crc.upd 0 (data ++ footerFields ft))
-  refine ⟨mid, dl, rs, hw, hc, ?_, ?_⟩
+  refine ⟨mid, dl, rs, hw, hc, ?_, ?_, ?_⟩
   · have hrs' : loadDvReaders { bytes := data, mem := true } { ft with crc := K.crc.upd 0 data }
         (L.fields.map (·.name)) = .ok rs := hrs
-    unfold initSegment
+    unfold initSegmentV0
     rw [hc]
     simp only [ChunkBytes.ok_bind, hrs', ChunkBytes.pure_eq_ok]
+    rfl
+  · have hrs' : loadDvReaders { bytes := data, mem := true }
+        { ft with crc := K.crc.upd 0 (data ++ footerFields ft) } (L.fields.map (·.name)) = .ok rs := hrs
+    unfold initSegment
+    rw [hc]
+    simp only [ChunkBytes.ok_bind, footerCRC_eq, hrs', ChunkBytes.pure_eq_ok]
     rfl
   · unfold load
     rw [C04_footer K L hv data ft hs]
@@ -274,17 +290,39 @@ theorem new_and_load {K : Codecs} {L : LSeg} (hv : Valid K L) {data : Bytes} {ft
     simp only [h1, ChunkBytes.ok_bind, h2, hrs, ChunkBytes.pure_eq_ok]
     rfl
 
-/-- **C04_new_eq_load.**  The segment `New` returns (built by `initSegmentBase` from the
-    builder's tables and the data section, nothing parsed) and the segment `load` builds from the
-    persisted file are the same value except for the checksum slot of the footer: `New` stores
-    the CRC-32 of the data section, `load` finds the CRC-32 of the file without its last four
-    bytes.  In particular `load` re-parses exactly the tables the builder held in memory
-    (`fieldsInv`, `fieldDocs`, `fieldFreqs`, `dictLocs`, `storedFieldChunkOffsets`) and opens
-    the same doc-value readers; and every reader of the segment gives the same answer on both,
-    for all arguments: "reading a freshly built segment" is "reading it after persist + load". -/
+/-- **C04_new_eq_load** (code after commit 6ad80a3).  The segment `New` returns (built by
+    `initSegmentBase` from the builder's tables and the data section, nothing parsed) and the
+    segment `load` builds, memory-backed, from the persisted file are EQUAL: `load` re-parses
+    exactly the tables the builder held in memory (`fieldsInv`, `fieldDocs`, `fieldFreqs`,
+    `dictLocs`, `storedFieldChunkOffsets`), opens the same doc-value readers, and finds in the
+    last four bytes of the file the checksum `footerCRC` computed for the in-memory footer.
+    Hence every reader of the segment - `Segment.CRC()` included - gives the same answer on
+    both: "reading a freshly built segment" is "reading it after persist + load". -/
 theorem C04_new_eq_load (K : Codecs) (L : LSeg) (hv : Valid K L) (data : Bytes) (ft : Footer)
     (hs : serialize K L = .ok (data, ft)) :
     ∃ nw ld, initSegment K L = .ok nw ∧ load true (fileOf K data ft) = .ok ld ∧
+      ld = nw ∧
+      nw.footer = { ft with crc := K.crc.upd 0 (data ++ footerFields ft) } ∧
+      nw.data = { bytes := data, mem := true } := by
+  obtain ⟨mid, dl, rs, _, _, _, hn, hl⟩ := new_and_load hv hs
+  exact ⟨_, _, hn, hl, rfl, rfl, rfl⟩
+
+/-- … and with totality: `New` succeeds on every valid description, and what it returns is what
+    loading the persisted segment (memory-backed) gives -/
+theorem C04_new (K : Codecs) (L : LSeg) (hv : Valid K L) :
+    ∃ data ft nw, serialize K L = .ok (data, ft) ∧ initSegment K L = .ok nw ∧
+      load true (fileOf K data ft) = .ok nw := by
+  obtain ⟨data, ft, hs⟩ := C04_total K L hv.toValid'
+  obtain ⟨nw, ld, hn, hl, he, _⟩ := C04_new_eq_load K L hv data ft hs
+  exact ⟨data, ft, nw, hs, hn, he ▸ hl⟩
+
+/-- **the code before commit 6ad80a3**: the segment `New` returned and the loaded one are the same
+    value except for the checksum slot of the footer (`New` stored the CRC-32 of the data section,
+    `load` finds the CRC-32 of the file without its last four bytes); all other components and
+    all readers that do not look at the checksum agree. -/
+theorem C04_new_v0_eq_load (K : Codecs) (L : LSeg) (hv : Valid K L) (data : Bytes) (ft : Footer)
+    (hs : serialize K L = .ok (data, ft)) :
+    ∃ nw ld, initSegmentV0 K L = .ok nw ∧ load true (fileOf K data ft) = .ok ld ∧
       ld = nw.withCrc (K.crc.upd 0 (data ++ footerFields ft)) ∧
       nw.footer = { ft with crc := K.crc.upd 0 data } ∧
       nw.data = { bytes := data, mem := true } ∧ ld.data = nw.data ∧
@@ -303,34 +341,41 @@ theorem C04_new_eq_load (K : Codecs) (L : LSeg) (hv : Valid K L) (data : Bytes) 
       (∀ (r0 : DocValues.Reader) (ds : List Nat),
         DocValues.Reader.visitAll K.dv ld.data dvChunk r0 ds =
           DocValues.Reader.visitAll K.dv nw.data dvChunk r0 ds) := by
-  obtain ⟨mid, dl, rs, _, _, hn, hl⟩ := new_and_load hv hs
+  obtain ⟨mid, dl, rs, _, _, hn, _, hl⟩ := new_and_load hv hs
   refine ⟨_, _, hn, hl, rfl, rfl, rfl, rfl, rfl, rfl, rfl, rfl, rfl, rfl, rfl, rfl, rfl, rfl, rfl,
     rfl, rfl, fun _ => rfl, fun _ => rfl, fun _ => rfl, fun _ _ => rfl⟩
 
-/-- … and with totality: `New` succeeds on every valid description, and what it returns is (up to
-    the checksum slot) what loading the persisted segment gives -/
-theorem C04_new (K : Codecs) (L : LSeg) (hv : Valid K L) :
-    ∃ data ft nw, serialize K L = .ok (data, ft) ∧ initSegment K L = .ok nw ∧
-      load true (fileOf K data ft) = .ok (nw.withCrc (K.crc.upd 0 (data ++ footerFields ft))) := by
-  obtain ⟨data, ft, hs⟩ := C04_total K L hv.toValid'
-  obtain ⟨nw, ld, hn, hl, he, _⟩ := C04_new_eq_load K L hv data ft hs
-  exact ⟨data, ft, nw, hs, hn, he ▸ hl⟩
+/-- the repaired `New` returns the pre-fix segment with the checksum slot corrected -/
+theorem C04_new_eq_v0 (K : Codecs) (L : LSeg) (hv : Valid K L) (data : Bytes) (ft : Footer)
+    (hs : serialize K L = .ok (data, ft)) :
+    ∃ nw nw0, initSegment K L = .ok nw ∧ initSegmentV0 K L = .ok nw0 ∧
+      nw = nw0.withCrc (K.crc.upd 0 (data ++ footerFields ft)) := by
+  obtain ⟨mid, dl, rs, _, _, hn0, hn, _⟩ := new_and_load hv hs
+  exact ⟨_, _, hn, hn0, rfl⟩
 
-/-- the segment `New` returns for the example -/
-def exNew : Loaded := { exLoaded true with footer := { exFooter with crc := 9772 } }
+/-- the segment `New` returned for the example BEFORE commit 6ad80a3 -/
+def exNewV0 : Loaded := { exLoaded true with footer := { exFooter with crc := 9772 } }
 
-set_option maxRecDepth 100000 in
-/-- non-vacuity of `C04_new_eq_load`, and the one difference: the example segment as `New`
-    returns it has checksum 9772 (data section), loaded from its file 10277 (data section and
-    the 40 bytes of footer fields) -/
-theorem C04_new_crc_counterexample :
-    initSegment exK exL = .ok exNew ∧ load true (fileOf exK exData exFooter) = .ok (exLoaded true) ∧
-    exNew ≠ exLoaded true ∧ exNew.withCrc 10277 = exLoaded true := by
-  obtain ⟨nw, ld, hn, hl, he, hf, hd, _, _, _, _, _, _, _, h1, h2, h3, h4, h5, h6, _⟩ :=
-    C04_new_eq_load exK exL ex_valid exData exFooter ex_serialize
+/-- non-vacuity of `C04_new_eq_load`: for the example, the repaired `New` returns the loaded value -/
+theorem ex_new : initSegment exK exL = .ok (exLoaded true) := by
+  obtain ⟨nw, ld, hn, hl, he, _⟩ := C04_new_eq_load exK exL ex_valid exData exFooter ex_serialize
   rw [ex_load.1] at hl
   cases hl
-  have hnw : nw = exNew := by
+  rw [← he] at hn
+  exact hn
+
+set_option maxRecDepth 100000 in
+/-- **the defect commit 6ad80a3 repaired** (about `initSegmentV0`, the pre-fix code): the example
+    segment as `New` returned it had checksum 9772 (data section), loaded from its file 10277
+    (data section and the 40 bytes of footer fields); full equality was false. -/
+theorem C04_new_crc_v0_counterexample :
+    initSegmentV0 exK exL = .ok exNewV0 ∧ load true (fileOf exK exData exFooter) = .ok (exLoaded true) ∧
+    exNewV0 ≠ exLoaded true ∧ exNewV0.withCrc 10277 = exLoaded true := by
+  obtain ⟨nw, ld, hn, hl, he, hf, hd, _, _, _, _, _, _, _, h1, h2, h3, h4, h5, h6, _⟩ :=
+    C04_new_v0_eq_load exK exL ex_valid exData exFooter ex_serialize
+  rw [ex_load.1] at hl
+  cases hl
+  have hnw : nw = exNewV0 := by
     have hcrc : exK.crc.upd 0 exData = 9772 := by decide
     rw [hcrc] at hf
     obtain ⟨d, f, a, b, c, e, g, h⟩ := nw
@@ -339,6 +384,14 @@ theorem C04_new_crc_counterexample :
     rfl
   rw [hnw] at hn
   exact ⟨hn, ex_load.1, by decide, by decide⟩
+
+/-- registered name; refers to the PRE-FIX code (`initSegmentV0`): commit 6ad80a3 repaired
+    `newWithChunkMode`, and for the repaired `initSegment` the equality holds (`C04_new_eq_load`,
+    `ex_new`).  Alias of `C04_new_crc_v0_counterexample`. -/
+theorem C04_new_crc_counterexample :
+    initSegmentV0 exK exL = .ok exNewV0 ∧ load true (fileOf exK exData exFooter) = .ok (exLoaded true) ∧
+    exNewV0 ≠ exLoaded true ∧ exNewV0.withCrc 10277 = exLoaded true :=
+  C04_new_crc_v0_counterexample
 
 /-! ## 2. one loaded value for both backings -/
 
@@ -468,6 +521,10 @@ open Ice.Props.C04
 #print axioms total_needs_dv_range
 #print axioms C04_new_eq_load
 #print axioms C04_new
+#print axioms C04_new_v0_eq_load
+#print axioms C04_new_eq_v0
+#print axioms ex_new
+#print axioms C04_new_crc_v0_counterexample
 #print axioms C04_new_crc_counterexample
 #print axioms Ice.Model.Format.load_toFile
 #print axioms C04_backing_irrelevant
